@@ -141,11 +141,15 @@ def gen_cases(rng, n, tier):
 
 
 # ------------------------------------------------------------------------------ program level
-def gen_compare_prog(rng, nan_bias=False):
+def gen_compare_prog(rng, nan_bias=False, cur=None):
     """Operands (integers, fractions, negatives, NaN from an empty stack) prepared by area-less commands,
     then 2-5 plain pushes carrying ?/! areas whose count lies among the operands."""
+    if cur is None:
+        # one program in eight does everything on stack 0 (selected first; own values, stored NaN and, once they run out, end
+        # of input): compiled programs implement stack 0 separately
+        cur = 0 if rng.random() < 0.125 else 3
     counts = [rng.choice([0, 0, 1, 1, 2, 3, 5, 7, 12, 33, 100, 200, rng.randint(0, 200)]) for _ in range(rng.randint(1, 2))]
-    prog = []
+    prog = [(5, 1, 0, None)] if cur == 0 else []
     nops = rng.randint(3, 9)
     for _ in range(nops):
         c = rng.choice(counts)
@@ -154,21 +158,21 @@ def gen_compare_prog(rng, nan_bias=False):
             k = 0.95            # a stored NaN (1/0 pushed back onto the non-empty stack) between real operands
         if k < 0.06:
             # an integer (or integer + 1/2) at or above 2^32 whose LOW limb is small: 16^8 (+ small)
-            prog += [(0, 1, 16, None)] * 8 + [(2, 8, 3, None)]
+            prog += [(0, 1, 16, None)] * 8 + [(2, 8, cur, None)]
             if rng.random() < 0.6:
-                prog += push_value(rng.choice([0, 1, 2, c, max(0, c - 1)])) + [(1, 2, 3, None)]
+                prog += push_value(rng.choice([0, 1, 2, c, max(0, c - 1)]), cur) + [(1, 2, cur, None)]
             if rng.random() < 0.3:
-                prog += push_value(1) + push_value(2) + [(4, 1, 5, None), (2, 2, 3, None), (1, 2, 3, None)]
+                prog += push_value(1, cur) + push_value(2, cur) + [(4, 1, 5, None), (2, 2, cur, None), (1, 2, cur, None)]
         elif k < 0.12:
             # the count plus or minus an extremely small fraction: c +- 1/b^e
             b_, e_ = rng.choice([(10, rng.randint(16, 50)), (2, rng.randint(50, 64)), (7, rng.randint(20, 40))])
-            prog += [(0, 1, b_, None)] * e_ + [(2, e_, 3, None), (4, 1, 5, None)]          # 1/b^e stays on stack 3
+            prog += [(0, 1, b_, None)] * e_ + [(2, e_, cur, None), (4, 1, 5, None)]          # 1/b^e stays on stack 3
             if rng.random() < 0.5:
                 prog += [(3, 1, 5, None)]                                                   # negated
-            prog += push_value(c) + [(1, 2, 3, None)]
+            prog += push_value(c, cur) + [(1, 2, cur, None)]
         elif k < 0.35:
             v = max(0, c + rng.choice([-1, 0, 0, 1, -c, c]))
-            prog += push_value(v)
+            prog += push_value(v, cur)
         elif k < 0.75:
             # fraction p/q near c (or near -c, or a proper fraction near 0):  p = c*q + r
             q = rng.choice([2, 3, 4, 7])
@@ -176,13 +180,13 @@ def gen_compare_prog(rng, nan_bias=False):
             if rng.random() < 0.25:
                 p = rng.randint(1, q - 1)
             p = max(p, 0)
-            prog += push_value(p) + push_value(q) + [(4, 1, 5, None), (2, 2, 3, None)]
+            prog += push_value(p, cur) + push_value(q, cur) + [(4, 1, 5, None), (2, 2, cur, None)]
             if rng.random() < 0.35:
                 prog += [(3, 1, 5, None)]       # negate the fraction
         elif k < 0.9:
-            prog += push_value(max(0, c + rng.choice([-1, 0, 1]))) + [(3, 1, 5, None)]
+            prog += push_value(max(0, c + rng.choice([-1, 0, 1])), cur) + [(3, 1, 5, None)]
         else:
-            prog += push_value(0) + [(4, 1, 5, None)]       # 1/0 -> NaN pushed back onto a non-empty stack
+            prog += push_value(0, cur) + [(4, 1, 5, None)]       # 1/0 -> NaN pushed back onto a non-empty stack
     hearts = [rng.choice([2, 3, 4]), rng.choice([5, 6, 7]), 13]
     ncmp = rng.randint(2, 5)
     cmp_idx = []
@@ -197,7 +201,7 @@ def gen_compare_prog(rng, nan_bias=False):
             a = ('?', None, a)
         prog.append((0, h, c // h if c else 0, a))
         if rng.random() < 0.3:
-            prog += push_value(rng.choice(counts))
+            prog += push_value(rng.choice(counts), cur)
     if nan_bias or rng.random() < 0.6:
         prog = epilogue(rng, prog)
     return prog, set(cmp_idx)
@@ -277,7 +281,8 @@ def _compiled_case(i):
     tier, seed, rundir = _RUN['tier'], _RUN['seed'], _RUN['dir']
     rng = C.rng_for(seed, PID, 'compiled', tier, i)
     res = {'i': i, 'items': [], 'hist': {}, 'status': 'reject'}
-    prog, cmp_idx = gen_compare_prog(rng, nan_bias=rng.random() < 0.6)
+    # every third compiled program compares on stack 0 (the emitted program has its own stack 0 / input implementation)
+    prog, cmp_idx = gen_compare_prog(rng, nan_bias=rng.random() < 0.6, cur=(0 if i % 3 == 0 else None))
     control = [(t, h, d, None) for (t, h, d, a) in prog]
     lim = Limits(steps=3000)
     m, ro, re_, rend = P.admit(prog, '', lim)
@@ -307,6 +312,8 @@ def _compiled_case(i):
         def same(o, out, err, end):
             return o.kind == P.expect_from_ref(end) and o.out == out and o.err == err
         res['hist']['compiled_programs'] = 1
+        if prog and prog[0] == (5, 1, 0, None):
+            res['hist']['compiled_programs_comparing_on_stack0'] = 1
         res['hist']['compiled_comparisons'] = m.st['cmp_q_left'] + m.st['cmp_q_right'] + m.st['cmp_b_left'] + m.st['cmp_b_right']
         if not same(ob, co, ce, cend):
             res['hist']['compiled_control_differs(see C03)'] = 1
@@ -376,6 +383,7 @@ def main(tier, seed):
                    'program-level attribution: only divergences at a step whose command is a plain push with an area are judged here; others are left to C01/C06']
     minimum = {'pairs': (n, 5000), 'nearly equal pairs': (hist.get('nearly_equal_pair', 0), 2000), 'object histories': (hist.get('object_history', 0), 300), 'cmp:N': (hist.get('cmp:N', 0), 100), 'cmp:L': (hist.get('cmp:L', 0), 500),
                'program comparisons': (ncmp, 1000), 'comparisons in compiled programs': (chist.get('compiled_comparisons', 0), 150),
+               'compiled programs comparing on stack 0': (chist.get('compiled_programs_comparing_on_stack0', 0), 10),
                'fraction operands at ?': (phist.get('branch:?:frac:left', 0) + phist.get('branch:?:frac:right', 0), 100),
                'negative fractions within 1 of the count': (phist.get('negative_fraction_within_1_of_count', 0), 10)}
     return rep.finish(cov, assumptions, t0, minimum)
